@@ -85,6 +85,10 @@ inline std::vector<int> seqFromString(const std::string & s) {
 	return r;
 }
 
+// Marks code that belongs to the checker (model, ledger, explorer): the fault injector never fires inside it.
+inline int & harnessDepth() { static int d = 0; return d; }
+struct HarnessScope { HarnessScope() { ++harnessDepth(); } ~HarnessScope() { --harnessDepth(); } };
+
 // ---------------------------------------------------------------- explorer
 struct Stop {};                               // ends the current execution at a safe point
 struct Divergence { std::string what; };      // replay did not reproduce: the checker is broken
@@ -106,6 +110,7 @@ public:
 
 	// picks < freeUpTo are free alternatives; picks >= freeUpTo each cost 1.
 	int choose(int n, int freeUpTo, Kind kind) {
+		HarnessScope hs;
 		if(n <= 1) return 0;
 		if(pos < prefix.size()) {
 			int p = prefix[pos++];
@@ -220,11 +225,12 @@ public:
 	void obs(uint64_t v) { execHash = mix64(execHash, v); }
 	void obsStr(const std::string & s) { obs(hashStr(s)); }
 
-	void log(const std::string & s) { if(tracing) trace.push_back(s); }
+	void log(const std::string & s) { HarnessScope hs; if(tracing) trace.push_back(s); }
 	bool wantLog() const { return tracing; }
 
 	// record a violation; the execution continues to the next safe point, where it stops
 	void fail(const std::string & clause, const std::string & msg) {
+		HarnessScope hs;
 		log("!! VIOLATION [" + clause + "] " + msg);
 		if(failed) return;            // first violation of an execution is the one reported
 		failed = true;
